@@ -77,10 +77,20 @@ def correspond(ctx):
 
 
 def search(ctx):
-    """a broken statement-granularity theorem / translator refusal: every scenario x interferer x gap on the
-    real code again (the monitors do not depend on the generated scripts)"""
+    """failing-input search: (a broken statement-granularity theorem / translator refusal) every scenario x
+    interferer x gap of the race streams on the real code again (their monitors do not depend on the generated
+    scripts); the disagreeing cases run to the end under the statement monitors, then a wider population of runs
+    with operator commands"""
+    from harness import engine_stream
     from vlib import par
     par.run_parallel(ctx, 'harness.race_driver', 'run_chunk', RACE_CHUNKS)
+    if ctx.violations:
+        return
+    engine_stream.search_from_core(ctx, ['C03'], 'plain')
+    if ctx.violations:
+        return
+    par.run_parallel(ctx, 'harness.engine_stream', 'run_chunk',
+                     [{'n_programs': 30, 'props': ['C03'], 'mode': 'ops', 'p_err': 0.2}] * 14)
 
 
 def replay(ctx, rep):
